@@ -97,10 +97,16 @@ class XferWorld:
             pass
 
     # ---- commands
-    def start_send(self, cwd, what=None, text=None, code="1-abc", extra=()):
+    def start_send(self, cwd, what=None, text=None, code="1-abc", extra=(), channel="arg"):
+        """channel: how a text reaches the command - "arg" (--text TEXT), "stdin" (--text - : the caller supplies sys.stdin),
+        "prompt" (no --text and nothing to send: the command asks with input(); the caller supplies builtins.input)"""
         argv = ["--relay-url", mbworld.RELAY_URL, "--transit-helper", "", "send", "--hide-progress", "--code", code]
         argv += list(extra)
-        if text is not None:
+        if text is not None and channel == "stdin":
+            argv += ["--text", "-"]
+        elif text is not None and channel == "prompt":
+            pass
+        elif text is not None:
             argv += ["--text", text]
         else:
             argv += ["--", what]        # a file may be called "-dash"
